@@ -9,11 +9,11 @@ LEVEL = 'exploration'
 TIERS = {'quick': 12000, 'thorough': 600000}
 RULE = ('seeded sessions of 1-6 ops from {shell, exec_out, root, streaming_shell} x decode, device output 0..3*maxdata bytes over '
         'utf8/invalid-utf8/binary alphabets cut into 0..n WRTE payloads (empty payloads and cuts inside multi-byte sequences included), '
-        'every read fragmentation policy, strict/eager close, sync and async; in 12% of the sessions the link dies for good at one transport call (a cut-off command may raise, never return a part); non-trivial = some command had >= 2 payloads and >= 1 read was '
+        'every read fragmentation policy, strict/eager close, sync and async; in 12% of the sessions the link dies for good at one transport call (a cut-off command may raise, never return a part), in 10% one OPEN is answered only after the command has timed out (later commands must be unaffected); non-trivial = some command had >= 2 payloads and >= 1 read was '
         'fragmented; distinct = distinct event-log digests')
 ASSUMPTIONS = ['the device model emits only behaviour a conforming adbd can show (DESIGN 2.3)',
                'expected text is bytes.decode("utf8","backslashreplace") computed by the harness, not by adb_shell']
-EXPECT_PROBES = {'all': ['frag_reads', 'hdr_split', 'payload_split', 'empty_payload_wrte', 'utf8_split_across_wrte', 'c01_link_died_mid_command']}
+EXPECT_PROBES = {'all': ['frag_reads', 'hdr_split', 'payload_split', 'empty_payload_wrte', 'utf8_split_across_wrte', 'c01_link_died_mid_command', 'late_open_okay']}
 KINDS = ['shell', 'shell', 'exec_out', 'streaming_shell', 'streaming_shell', 'root']
 OWN = ('wrong-result', 'unexpected-exception', 'timeout-instead-of-result', 'missing-exception', 'wrong-exception', 'hang', 'no-termination', 'deadlock')
 
@@ -22,7 +22,18 @@ def generate(seed, tier):
     big = 20000 if tier == 'quick' else 200000
     g = Gen(seed)
     scn = S.session(g.int(0, 1 << 60), KINDS, nmax=6, big=big)
-    if g.chance(0.12):
+    ops = scn['actors'][0]
+    if len(ops) >= 3 and g.chance(0.1):
+        # a busy device answers one OPEN only after the host has given up on it; that command times out, and what the device then
+        # sends on the abandoned stream must not show up in any later command's output
+        k = g.int(1, len(ops) - 2)
+        ops[k].update({'rt': 2.0, 'tt': 1.0, 'expect_timeout': True})
+        ops[k].pop('to', None)
+        scn['device']['open_delay'] = {'nth': k - 1, 'delay': g.pick([2.5, 3.0, 4.0])}      # shorter than any later command's timeouts: only the one command times out
+        if g.chance(0.6):
+            scn['config']['idle_returns_empty'] = True
+            scn['config']['idle_cost'] = 0.05
+    elif g.chance(0.12):
         # the link dies somewhere in the session (RST / EOF / EIO at one transport call, for good): a command cut off before the
         # device closed its stream has no result -- it may raise anything, it must not return the part that happened to arrive
         scn['config']['faults'] = [{'at': g.int(4, 60), 'kind': g.pick(['reset', 'eof', 'oserror']), 'persistent': True}]
